@@ -26,7 +26,7 @@ def load(pid):
     return importlib.import_module("vf.props.%s" % pid.lower())
 
 
-def run_shard(pid, tier, seed, shard, nshards, out, budget, only_index=None):
+def run_shard(pid, tier, seed, shard, nshards, out, budget, only_index=None, skip=()):
     t0 = time.time()
     faulthandler.enable()
     mod = load(pid)
@@ -82,6 +82,8 @@ def run_shard(pid, tier, seed, shard, nshards, out, budget, only_index=None):
                 continue
             if only_index is not None and i != only_index:
                 continue
+            if i in skip:
+                continue
             if time.time() > deadline:
                 agg["truncated"] = True
                 # the case stream puts complete sub-spaces first; note if we cut into one
@@ -89,6 +91,12 @@ def run_shard(pid, tier, seed, shard, nshards, out, budget, only_index=None):
                     agg["exhaustive_done"] = False
                 break
             ctx = Ctx(case, tier, seed)
+            # the case in flight, so that the parent can name the witness when the interpreter itself dies
+            try:
+                with open(out + ".current", "w") as f:
+                    json.dump({"index": i, "case": case}, f, default=repr)
+            except (OSError, TypeError, ValueError):
+                pass
             signal.setitimer(signal.ITIMER_REAL, case_timeout)
             try:
                 mod.run_case(case, ctx)
